@@ -41,7 +41,18 @@ def twin_answer(memo, plan, objname, opname, args):
     key = "twin:" + world.expr_key(plan, objname, opname, args)
     if key in memo.d:
         return memo.d[key]
-    ans = world.run_in_fork(world.twin_main, world.sub_plan(plan, objname, args), objname, opname, args)
+    dkey = "twindesc:" + world.expr_key(plan, objname, "__desc__", [])
+    desc = memo.d.get(dkey)
+    if desc is None:
+        desc = world.run_in_fork(world.twin_describe_main, world.sub_plan(plan, objname, []), objname)
+        if len(memo.d) < memo.limit:
+            memo.d[dkey] = desc
+    if "skip" in desc:
+        ans = desc
+    else:
+        # the second process gets the recipes of the ARGUMENTS only; the target arrives as a description
+        sub = world.sub_plan(plan, objname, args)
+        ans = world.run_in_fork(world.twin_answer_main, sub, objname, opname, args, desc["desc"], desc["canon"])
     if len(memo.d) < memo.limit:
         memo.d[key] = ans
     return ans
